@@ -21,22 +21,45 @@ if TYPE_CHECKING:  # pragma: no cover
     from geostructures.typing import GeoShape, PolygonLike
 
 
+# The WKT patterns below are unambiguous: a number can be read in one way only, numbers of a
+# coordinate are separated by exactly one space and coordinates/rings by exactly one comma (with an
+# optional blank on either side), so text that was validated against a whole-geometry pattern is cut
+# into the same pieces by the ring/coordinate patterns, and a mismatch is found in linear time.
+
+# A single number, e.g. '-1.0', '30' or '1e-05'
+_RE_NUM_STR = r'-?\d+(?:\.\d*)?(?:[eE][-+]?\d+)?'
+
 # A wkt coordinate, e.g. '-1.0 2.0', that can be up to 4 numbers long (can include Z and M)
-_RE_COORD_STR = r'(?:-?\d{1,3}(?:\.?\d*)?(?:[eE][-+]?\d+)?\s?){2,4}\s?'
+_RE_COORD_STR = _RE_NUM_STR + r'(?: ' + _RE_NUM_STR + r'){1,3}'
 _RE_COORD = re.compile(_RE_COORD_STR)
 
+_RE_SEP_STR = r'\s?,\s?'
+
 # A single linear ring, e.g. '(0.0 0.0, 1.0 1.0, ... )'
-_RE_LINEAR_RING_STR = r'\((?:\s?' + _RE_COORD_STR + r'\s?\,?)+\)'
+_RE_LINEAR_RING_STR = (
+    r'\(\s?' + _RE_COORD_STR + r'(?:' + _RE_SEP_STR + _RE_COORD_STR + r')*\s?\)'
+)
 _RE_LINEAR_RING = re.compile(_RE_LINEAR_RING_STR)
 
 # A group of linear rings (shell and holes), e.g. '((0.0 0.0, 1.0 1.0, ... ), ( ... ))'
-_RE_LINEAR_RINGS_STR = r'(\((?:' + _RE_LINEAR_RING_STR + r'\,?\s?)+\))'
+_RE_LINEAR_RINGS_STR = (
+    r'(\(\s?' + _RE_LINEAR_RING_STR + r'(?:' + _RE_SEP_STR + _RE_LINEAR_RING_STR + r')*\s?\))'
+)
 _RE_LINEAR_RINGS = re.compile(_RE_LINEAR_RINGS_STR)
 
-_RE_ZM_STR = r'\s?([ZM]{0,2})\s?'  # Presence is optional - for matching whole WKT
+# A group of parenthesised points, e.g. '((0.0 0.0), (1.0 1.0))'
+_RE_POINT_RING_STR = r'\(\s?' + _RE_COORD_STR + r'\s?\)'
+_RE_POINT_RINGS_STR = (
+    r'\(\s?' + _RE_POINT_RING_STR + r'(?:' + _RE_SEP_STR + _RE_POINT_RING_STR + r')*\s?\)'
+)
+
+_RE_ZM_STR = r'\s?(ZM?|MZ?)?\s?'  # Presence is optional - for matching whole WKT
 
 # Presence is required - for matching ZM specifically
-_RE_ZM = re.compile(r'^(?:(?:MULTI)?(?:(?:POINT)|(?:POLYGON)|(?:LINESTRING)))\s?([ZM]{1,2})\s?')
+_RE_ZM = re.compile(
+    r'^(?:(?:MULTI)?(?:(?:POINT)|(?:POLYGON)|(?:LINESTRING)))\s?(ZM?|MZ?)\s?\(',
+    flags=re.IGNORECASE
+)
 
 _RE_POINT_WKT = re.compile(
     r'^POINT' + _RE_ZM_STR + r'\(\s?' + _RE_COORD_STR + r'\s?\)$',
@@ -52,11 +75,12 @@ _RE_LINESTRING_WKT = re.compile(
 )
 
 _RE_MULTIPOINT_WKT = re.compile(
-    r'^MULTIPOINT' + _RE_ZM_STR + r'(?:' + _RE_LINEAR_RING_STR + r'|' + _RE_LINEAR_RINGS_STR + r')$',
+    r'^MULTIPOINT' + _RE_ZM_STR + r'(?:' + _RE_LINEAR_RING_STR + r'|' + _RE_POINT_RINGS_STR + r')$',
     flags=re.IGNORECASE
 )
 _RE_MULTIPOLYGON_WKT = re.compile(
-    r'^MULTIPOLYGON' + _RE_ZM_STR + r'\((' + _RE_LINEAR_RINGS_STR + r',?\s?)+\)$',
+    r'^MULTIPOLYGON' + _RE_ZM_STR
+    + r'\(\s?' + _RE_LINEAR_RINGS_STR + r'(?:' + _RE_SEP_STR + _RE_LINEAR_RINGS_STR + r')*\s?\)$',
     flags=re.IGNORECASE
 )
 _RE_MULTILINESTRING_WKT = re.compile(
